@@ -69,13 +69,6 @@ macro_rules! log_context {
     }};
 }
 
-#[derive(Clone, Copy)]
-pub enum HeaderLen {
-    V4,
-    V6,
-    Unix,
-}
-
 // TODO: should have a backend
 pub struct ExpectProxyProtocol<Front: SocketHandler> {
     pub addresses: Option<ProxyAddr>,
@@ -84,7 +77,6 @@ pub struct ExpectProxyProtocol<Front: SocketHandler> {
     pub frontend_readiness: Readiness,
     pub frontend_token: Token,
     pub frontend: Front,
-    header_len: HeaderLen,
     index: usize,
     pub request_id: Ulid,
 }
@@ -109,18 +101,29 @@ impl<Front: SocketHandler> ExpectProxyProtocol<Front> {
             },
             frontend_token,
             frontend,
-            header_len: HeaderLen::V4,
             index: 0,
             request_id,
         }
     }
 
     pub fn readable(&mut self, metrics: &mut SessionMetrics) -> SessionResult {
-        let total_len = match self.header_len {
-            HeaderLen::V4 => 28,
-            HeaderLen::V6 => 52,
-            HeaderLen::Unix => 232,
+        // Read exactly the header and not one byte more: whatever follows it
+        // on the socket belongs to the next protocol. The 16-byte fixed part
+        // announces the length of the rest.
+        let total_len = if self.index < 16 {
+            16
+        } else {
+            16 + u16::from_be_bytes([self.frontend_buffer[14], self.frontend_buffer[15]]) as usize
         };
+        if total_len > self.frontend_buffer.len() || (self.index >= 16 && self.index == total_len) {
+            error!(
+                "{} proxy protocol header is oversized (over 232 bytes) or inconsistent with its length, closing",
+                log_context!(self)
+            );
+            incr!(names::proxy_protocol::ERRORS);
+            self.frontend_readiness.reset();
+            return SessionResult::Close;
+        }
 
         // Anti-oversized-header / partial-read invariant: the accumulation
         // cursor never runs past the staging window, and the per-stage target
@@ -234,32 +237,7 @@ impl<Front: SocketHandler> ExpectProxyProtocol<Front> {
                 self.addresses = Some(header.addr);
                 SessionResult::Upgrade
             }
-            Err(Err::Incomplete(_)) => {
-                match self.header_len {
-                    HeaderLen::V4 => {
-                        if self.index == 28 {
-                            self.header_len = HeaderLen::V6;
-                        }
-                    }
-                    HeaderLen::V6 => {
-                        if self.index == 52 {
-                            self.header_len = HeaderLen::Unix;
-                        }
-                    }
-                    HeaderLen::Unix => {
-                        if self.index == 232 {
-                            error!(
-                                "{} proxy protocol header exceeds maximum size (232 bytes), closing",
-                                log_context!(self)
-                            );
-                            incr!(names::proxy_protocol::ERRORS);
-                            self.frontend_readiness.reset();
-                            return SessionResult::Close;
-                        }
-                    }
-                };
-                SessionResult::Continue
-            }
+            Err(Err::Incomplete(_)) => SessionResult::Continue,
             Err(Err::Error(e)) | Err(Err::Failure(e)) => {
                 error!(
                     "{} parse error, closing the connection:\n{}",
